@@ -110,6 +110,8 @@ fn non_ascii_stream(out: &mut Out, thorough: bool) {
         format!("wpkh({})", PK), format!("wsh(and_v(v:pk({}),older(10)))", PK), format!("tr({},{{pk({}),pk({})}})", XO, XO, PK),
         format!("sh(wsh(multi(1,{},{})))#abcdefgh", PK, PK), "and_v(v:pk(A),or_d(pk(B),older(10)))".into(),
         "or(9@pk(A),1@and(pk(B),after(100)))".into(), "thresh(2,pk(A),pk(B),older(5))".into(),
+        format!("pkh({})", PK), format!("pk({})", PK), format!("sh(multi(1,{},{}))", PK, PK),
+        "wsh(multi(2,@0/**,@1/<2;3>/*))".into(), "tr(@0/**,{pk(@1/**),pk(@2/<0;1>/*)})".into(),
     ];
     let mut inputs: Vec<String> = vec![];
     for u in ["é", "€", "😀"] {
@@ -155,6 +157,15 @@ fn non_ascii_stream(out: &mut Out, thorough: bool) {
         probe!("Concrete<String>", Concrete<String>, s);
         probe!("Concrete<DescriptorPublicKey>", Concrete<DescriptorPublicKey>, s);
         probe!("Semantic<String>", Semantic<String>, s);
+        // the inner descriptor types have their own FromStr; wallet policies their own grammar
+        probe!("Wsh<String>", miniscript::descriptor::Wsh<String>, s);
+        probe!("Wpkh<String>", miniscript::descriptor::Wpkh<String>, s);
+        probe!("Sh<String>", miniscript::descriptor::Sh<String>, s);
+        probe!("Pkh<String>", miniscript::descriptor::Pkh<String>, s);
+        probe!("Bare<String>", miniscript::descriptor::Bare<String>, s);
+        probe!("Tr<String>", miniscript::descriptor::Tr<String>, s);
+        probe!("Tr<DescriptorPublicKey>", miniscript::descriptor::Tr<DescriptorPublicKey>, s);
+        probe!("WalletPolicy", miniscript::descriptor::WalletPolicy, s);
     }
 }
 
@@ -369,6 +380,6 @@ pub fn run(out: &mut Out, thorough: bool, seed: u64) {
     out.sweep = false;
     let swept = out.swept;
     out.note("swept_calls", swept.to_string());
-    out.note("domain", "expression parser: own stream; all other entry points: panic sweep over the C04 (script decoder, malformed bytes), C10 (every FromStr on mutated strings), C13 (interpreter on mutated spends), C14 (PSBT histories + adversarial PSBTs), C17 (planner, adversarial Assets), C12 (constructors/validate), C18 (policy code), C08 (compiler) streams; satisfier assert corpus; non-ASCII text at every position of 15 base strings to 10 FromStr types; byte-level Interpreter::from_txdata stream (p2sh / p2wsh / sh-wsh / bare / p2tr with committing and non-committing control blocks of 9 lengths / p2wpkh / sh-wpkh / p2pkh / p2pk x inner scripts of every length 0..2 over an opcode alphabet, witness-program look-alikes of 3 versions x 5 program lengths x body length -2..+2, x scriptSig / witness shapes incl. non-push and truncated pushes; accepted inputs are iterated to the end)".into());
+    out.note("domain", "expression parser: own stream; all other entry points: panic sweep over the C04 (script decoder, malformed bytes), C10 (every FromStr on mutated strings), C13 (interpreter on mutated spends), C14 (PSBT histories + adversarial PSBTs), C17 (planner, adversarial Assets), C12 (constructors/validate), C18 (policy code), C08 (compiler) streams; satisfier assert corpus; non-ASCII text at every position of 15 base strings to all 18 public FromStr types (incl. the inner descriptor types Wsh / Wpkh / Sh / Pkh / Bare / Tr and WalletPolicy); byte-level Interpreter::from_txdata stream (p2sh / p2wsh / sh-wsh / bare / p2tr with committing and non-committing control blocks of 9 lengths / p2wpkh / sh-wpkh / p2pkh / p2pk x inner scripts of every length 0..2 over an opcode alphabet, witness-program look-alikes of 3 versions x 5 program lengths x body length -2..+2, x scriptSig / witness shapes incl. non-push and truncated pushes; accepted inputs are iterated to the end)".into());
     std::panic::set_hook(prev);
 }
